@@ -475,11 +475,19 @@ func (c *controller) diffs(p *proj) [][3]string {
 	bad := func(field string, real, spec interface{}) {
 		out = append(out, [3]string{field, fmt.Sprint(real), fmt.Sprint(spec)})
 	}
-	if got := w.Srv.VerifStarted(); got != p.Started {
-		bad("started", got, p.Started)
+	// the two reads that take srv.lock: a lock held across a gate or across user code must not stop the harness
+	var gotStarted bool
+	var gotConns int
+	if !w.readLocked(func() { gotStarted, gotConns = w.Srv.VerifStarted(), w.Srv.VerifConnCount() }) {
+		c.lockHeld = true
+		w.lockStuck("the projection (srv.started, len(srv.conns)) cannot be read", map[string]interface{}{"mode": c.mode, "plan": c.plan})
+		return nil
 	}
-	if got := w.Srv.VerifConnCount(); got != p.NConns {
-		bad("len(conns)", got, p.NConns)
+	if gotStarted != p.Started {
+		bad("started", gotStarted, p.Started)
+	}
+	if gotConns != p.NConns {
+		bad("len(conns)", gotConns, p.NConns)
 	}
 	if got := w.InHandlers(); got != p.Inh {
 		bad("handlers-inside", got, p.Inh)
@@ -625,7 +633,12 @@ func (c *controller) finish() bool {
 		return true
 	}
 	ok := waitAll()
-	if ok && w.Srv.VerifStarted() {
+	stillStarted := false
+	if ok && !w.readLocked(func() { stillStarted = w.Srv.VerifStarted() }) {
+		w.lockStuck("srv.started cannot be read after every shutdown call has returned", map[string]interface{}{"mode": c.mode, "plan": c.plan})
+		ok = false
+	}
+	if ok && stillStarted {
 		w.Shutdown()
 		ok = waitAll()
 	}
